@@ -543,6 +543,7 @@ type sys struct {
 	lastBatch []*node
 	lastGood  *node
 	ftip      int
+	stuck     bool // a call or a backlog request did not return in time: the case ends
 }
 
 // failStore is the block header store handed to the block manager: the real store, except that
@@ -777,6 +778,10 @@ func (s *sys) dump(res string, best int, bl string) string {
 	}
 	b.WriteString("] ntf [")
 	taken := s.bm.TakeNtfns()
+	tipBlocked := false
+	if res == "HANG" {
+		s.stuck = true
+	}
 	for i, n := range taken {
 		if i > 0 {
 			b.WriteByte(' ')
@@ -784,7 +789,12 @@ func (s *sys) dump(res string, best int, bl string) string {
 		hd := n.Ntfn.Header()
 		switch x := n.Ntfn.(type) {
 		case *blockntfns.Connected:
-			fmt.Fprintf(&b, "C:%d:%d:%d:%d", s.idOf(&hd), x.Height(), n.FilterTipAtRecv, n.MemFilterTipAtRecv)
+			blk := 0
+			if n.MemTipBlocked {
+				blk = 1
+				tipBlocked = true
+			}
+			fmt.Fprintf(&b, "C:%d:%d:%d:%d:%d", s.idOf(&hd), x.Height(), n.FilterTipAtRecv, n.MemFilterTipAtRecv, blk)
 		case *blockntfns.Disconnected:
 			tip := x.ChainTip()
 			st := 0
@@ -838,6 +848,13 @@ func (s *sys) dump(res string, best int, bl string) string {
 		}
 	}
 	fmt.Fprintf(&b, " csbad %d", bad)
+	// could the in-memory filter tip be read (as a backlog request has to) while each event was observable?
+	if tipBlocked {
+		b.WriteString(" tipread HANG")
+		s.stuck = true
+	} else {
+		b.WriteString(" tipread ok")
+	}
 	return b.String()
 }
 
@@ -857,7 +874,7 @@ func guard(f func()) (res string) {
 	case r := <-done:
 		return r
 	case <-time.After(20 * time.Second):
-		return "hang"
+		return "HANG"
 	}
 }
 
@@ -1196,6 +1213,9 @@ func runCase(t *tr.W, rng *rand.Rand, nev int, script string) {
 			switch {
 			case !pr.Fired:
 				probe = " pres none pbest 0 pbl []"
+			case pr.Hung:
+				probe = " pres HANG pbest 0 pbl []"
+				s.stuck = true
 			case pr.Err != nil:
 				probe = " pres err pbest 0 pbl []"
 			default:
@@ -1255,6 +1275,10 @@ func runCase(t *tr.W, rng *rand.Rand, nev int, script string) {
 	}
 
 	for ev := 0; ev < nev; ev++ {
+		if s.stuck {
+			t.Hit("case.ended-on-hang")
+			return
+		}
 		p := 1 + rng.Intn(npeers)
 		x := rng.Intn(109)
 		switch {
@@ -1629,7 +1653,10 @@ func runCase(t *tr.W, rng *rand.Rand, nev int, script string) {
 			pr, seen := s.bm.ProbeNow(uint32(ph))
 			s.bm.SetSinkDelay(0)
 			probe := fmt.Sprintf(" pres err pbest 0 pbl [] pseen %d", seen)
-			if pr.Err == nil {
+			if pr.Hung {
+				probe = fmt.Sprintf(" pres HANG pbest 0 pbl [] pseen %d", seen)
+				s.stuck = true
+			} else if pr.Err == nil {
 				var ss []string
 				for _, n := range pr.Ntfns {
 					hd := n.Header()
@@ -1772,6 +1799,7 @@ func scratchRoot() func() {
 }
 
 func Run(t *tr.W, thorough bool) {
+	tr.MaxHangs = 3 // a HANG is never expected on a correct tree: three of them settle the verdict
 	defer scratchRoot()()
 	rng := tr.Rng(7101)
 	ncases := 120
